@@ -1030,3 +1030,29 @@ Lemma foreign_then_own_example :
                         [Nothing; Nothing; Data [6;1]%N; Data [1;5;144;255;5;131;2;129;48]%N])) = RReply m
             /\ m_uid m = r_unit rq_big /\ m_fc m = Z.lor (r_fc rq_big) 128.
 Proof. eexists. vm_compute. repeat split. Qed.
+
+(* ------------------------------------------------------------------ isError(): how callers tell the results apart *)
+Lemma is_error_fc_exact fc : is_error_fc code fc = (fc >? 128).
+Proof. unfold is_error_fc. cbn. destruct (fc >? 128); reflexivity. Qed.
+
+Lemma zrange_in : forall n lo x, lo <= x < lo + Z.of_nat n -> In x (zrange lo n).
+Proof.
+  induction n as [|n IH]; intros lo x H; [lia|]. cbn [zrange].
+  destruct (Z.eq_dec x lo) as [->|Hne]; [left; reflexivity|right; apply IH; lia].
+Qed.
+
+Lemma is_error_iff_exception fc : 1 <= fc <= 127 ->
+  is_error_fc code (Z.lor fc 128) = true /\ is_error_fc code fc = false.
+Proof.
+  intros H.
+  assert (A : forallb (fun f => is_error_fc code (Z.lor f 128) && negb (is_error_fc code f)) (zrange 1 127) = true)
+    by (vm_compute; reflexivity).
+  rewrite forallb_forall in A. specialize (A fc (zrange_in 127 1 fc ltac:(lia))).
+  apply andb_true_iff in A. destruct A as [A1 A2]. split; [exact A1|]. apply negb_true_iff. exact A2.
+Qed.
+
+Lemma error_object_is_error fc : is_error_of code (RErr fc) = Some true.
+Proof. reflexivity. Qed.
+
+Lemma reply_is_error m : is_error_of code (RReply m) = Some (m_fc m >? 128).
+Proof. cbn [is_error_of]. rewrite is_error_fc_exact. reflexivity. Qed.
